@@ -162,6 +162,11 @@ func (m *Transport) transportIDLoop() {
 	defer m.logger.Infof(m.ctx, "Stopping transport ID loop")
 	for id := range ch.ReadOrDone(m.ctx, m.transportIDCh) {
 		m.mu.Lock()
+		if _, ok := m.transportMap[id]; !ok {
+			m.logger.Warnf(m.ctx, "Ignoring unknown transport ID %q from the scheduler", id)
+			m.mu.Unlock()
+			continue
+		}
 		if m.currentTransportID != id {
 			m.logger.Infof(m.ctx, "Switching transport to %s", id)
 			m.currentTransportID = id
